@@ -55,12 +55,15 @@ AllSetup == IF Family = "sidauth" THEN SetupEvents \o SidSetup ELSE SetupEvents
 MigStore == [E0 EXCEPT !.kind = "Store", !.creator = Gateway, !.provider = Gateway, !.gw = Gateway, !.owner = "d1", !.signer = "d1",
                        !.data = "D1", !.commit = "D1", !.cseg = <<"D1">>, !.op = 1, !.dur = 3600, !.replica = 1, !.timeout = 1800,
                        !.size = 1000, !.alias = "alD1"]
+\* (family stagger: two replicas, only the first is stored at the start - the second completes later, or after a re-assignment,
+\* so that the two shards of one order run on offset periods)
+MigStoreOf == IF Family = "stagger" THEN [MigStore EXCEPT !.replica = 2, !.timeout = 300] ELSE MigStore
 MigSetup ==
     LET s1 == FoldLeft(LAMBDA s, e : Apply(Cfg, s, e).st, Gen.post, SetupEvents)
-        s2 == Apply(Cfg, s1, MigStore).st
+        s2 == Apply(Cfg, s1, MigStoreOf).st
         sp == s2.shards[1].sp
-    IN <<MigStore, [E0 EXCEPT !.kind = "Complete", !.creator = sp, !.provider = sp, !.order = 1, !.size = 1000]>>
-FullSetup == IF Family \in {"migrate", "version", "debt"} THEN SetupEvents \o MigSetup ELSE AllSetup
+    IN <<MigStoreOf, [E0 EXCEPT !.kind = "Complete", !.creator = sp, !.provider = sp, !.order = 1, !.size = 1000]>>
+FullSetup == IF Family \in {"migrate", "version", "debt", "stagger"} THEN SetupEvents \o MigSetup ELSE AllSetup
 
 InitState == FoldLeft(LAMBDA s, e : Apply(Cfg, s, e).st, Gen.post, FullSetup)
 
@@ -349,7 +352,7 @@ Events(s) ==
       [] Family = "sidauth" -> SidAuthEvents(s)
       [] Family = "sponsor" -> SponsorEvents(s)
       [] Family = "fault"   -> FaultEvents(s)
-      [] Family = "migrate" -> MigrateEvents(s)
+      [] Family \in {"migrate", "stagger"} -> MigrateEvents(s)
       [] Family = "version" -> VersionEvents(s)
       [] Family = "debt"    -> DebtEvents(s)
       [] Family = "gen" -> GStoreNew(s) \cup GStoreMore(s) \cup GStoreUpd(s) \cup GCompletes(s) \cup GCancels(s) \cup GSigned(s)
